@@ -130,6 +130,16 @@ def check(ctx):
             bmode, lb, ub = gen_bounds(C.rng, v)
             np.random.seed(C.rng.randrange(1 << 30))
             sp = L['HyperSpace'](n_agents=3, n_variables=v, n_dimensions=d, n_iterations=1, lower_bound=lb, upper_bound=ub)
+            if any(np.any(a.position < 0) or np.any(a.position > 1) for a in sp.agents):
+                C.issue('hyper-initial-position-outside-unit-box', 'oracle', dict(how='hyper', lb=lb, ub=ub, v=v, d=d))
+            if k < (2 if ctx['tier'] == 'quick' else 10):
+                # a large space: a sampling rule whose tails leave the unit box with small probability shows here
+                big = L['HyperSpace'](n_agents=300, n_variables=8, n_dimensions=32, n_iterations=1, lower_bound=[-1.0] * 8, upper_bound=[2.0] * 8)
+                lo_ = min(float(a.position.min()) for a in big.agents)
+                hi_ = max(float(a.position.max()) for a in big.agents)
+                if lo_ < 0 or hi_ > 1:
+                    C.issue('hyper-initial-position-outside-unit-box', 'oracle', dict(how='hyper-big', seed=k), low=lo_, high=hi_)
+                C.case(key=('hyper-big', k), nontrivial=True, kind='hyper-big')
             for a in sp.agents:
                 a.position += np.random.normal(0, 3, a.position.shape)
             rp = dict(how='hyper', lb=lb, ub=ub, v=v, d=d)
